@@ -233,7 +233,8 @@ class Own:
         """bind a loop / comprehension target to the elements of iter_expr; zip(...) and enumerate(...) are bound
         position-wise so that a fresh list zipped with an operand-owned one stays fresh"""
         if isinstance(iter_expr, ast.Call) and isinstance(iter_expr.func, ast.Name) and isinstance(target, (ast.Tuple, ast.List)):
-            if iter_expr.func.id == "zip" and len(iter_expr.args) == len(target.elts) and not iter_expr.keywords:
+            if iter_expr.func.id == "zip" and len(iter_expr.args) == len(target.elts) \
+                    and all(k.arg == "strict" for k in iter_expr.keywords):
                 for t, a in zip(target.elts, iter_expr.args):
                     self.bind_iteration(t, a, self.expr(a))
                 return
